@@ -29,7 +29,11 @@ RULE = ("random circuits of 1-4 persistent-capable blocks (Input, Counter, Timer
         "cancelled, as wait_for(shutdown(), timeout) does); from the snapshots (all of them in "
         "the thorough tier, a random third in quick) a second circuit is started after a downtime "
         "shorter/equal/longer than the remaining timer with expiration in {None, 0, <0, shorter, equal, longer "
-        "than the age of the stop time stamp}, blocks dropped or made non-persistent; compared with the Lean "
+        "than the age of the stop time stamp}, blocks dropped or made non-persistent; in half of "
+        "the timer-family circuits with >= 2 blocks one or two Input/Counter blocks send their output as a 'put' "
+        "event (plain, EventCond('put', None), EventCond(None, 'put'), EventCond(None, None)) to another persistent "
+        "block created before or after them, with falsy and truthy initial/restored values and valid entries of "
+        "both in the initial storage; compared with the Lean "
         "model line by line: result of every event, every block's persistent flag/state/output/sdata/absolute "
         "timer expiry/entry-action log, persistent_ts and the canonicalised storage; a case is distinct by its "
         "(lines, trace) hash and non-trivial when it has at least one storage-changing event and one restart")
@@ -48,6 +52,10 @@ ASSUMPTIONS = [
     "events during the clean-up of a FAILED start-up are not modelled (circuits with the slow clean-up block are "
     "generated so that their initialisation succeeds); after an interrupted clean-up the life ends (FSM timers "
     "that were not cancelled are not followed any further)",
+    "events between blocks: only on_output 'put' events (plain or EventCond with None on either side) of an "
+    "Input/Counter to a block without on_output of its own, followed during the start-up only; no event changes "
+    "the output of a source block at run time (not modelled); the sync save is modelled with the repair "
+    "patches/C06-sync-save-on-uninitialized.diff",
     "reading of 'nothing is written if start-up failed' = abort before the start or a failing start() "
     "(DESIGN.md 6); a failing initialisation rewrites the entries and is compared with the model only",
 ]
@@ -220,6 +228,10 @@ def make_block(spec, life):
     k, name = spec['kind'], spec['name']
     exp = spec.get('exp')
     common = {'persistent': spec['p'], 'sync_state': spec['s'], 'expiration': None if exp is None else exp / 1e6}
+    link = spec.get('link')
+    if link is not None:
+        et, ef = ('put' if link['etrue'] else None), ('put' if link['efalse'] else None)
+        common['on_output'] = edzed.Event(link['dest_name'], 'put' if et and ef else edzed.EventCond(et, ef))
     if k == 'input':
         return edzed.Input(name, check=_check, initdef=edzed.UNDEF if spec['initdef'] is None else spec['initdef'][0], **common)
     if k == 'counter':
@@ -301,6 +313,8 @@ class Life:
         self.cleanup = False     # the asynchronous clean-up is in progress
         self.started_ok = False
         self.cleanup_finished = False
+        self.restored_from = {}  # block name -> the saved state `_restore_state` accepted
+        self.init_events = []    # (block name, event type, value) of events sent by other blocks during the start-up
         self.t_begin = None      # instant the stop began (when it can be observed)
 
     # ---- observation
@@ -323,7 +337,10 @@ class Life:
     def obs(self):
         out = []
         for spec, blk in zip(self.specs, self.blocks):
-            o = {'persistent': blk.persistent, 'inited': blk.is_initialized(), 'output': blk.output}
+            o = {'persistent': blk.persistent, 'inited': blk.is_initialized(), 'output': blk.output,
+                 'restored': spec['name'] in self.restored_from,
+                 'restored_from': copy.deepcopy(self.restored_from.get(spec['name'])),
+                 'init_events': [e for e in self.init_events if e[0] == spec['name']]}
             if isinstance(blk, edzed.FSM):
                 tm = self.timer_of(blk)
                 o.update(state=None if blk.state is edzed.UNDEF else blk.state, timer=None if tm is None else tm[0],
@@ -361,7 +378,8 @@ class Life:
                 if tm is not None:
                     t = f'{tm[0]}.{tm[1]}' 
             e = ','.join(self.entered.get(spec['name'], [])) or '-'
-            parts.append(f"P{int(blk.persistent)}:I{int(inited)}:v={v}:o={enc(blk.output)}:s={s}:t={t}:d={d}:e={e}")
+            parts.append(f"P{int(blk.persistent)}:I{int(inited)}:v={v}:o={enc(blk.output)}:s={s}:t={t}:d={d}:e={e}"
+                         f":r={int(spec['name'] in self.restored_from)}")
         return (f"ph={ph} ts={'n' if not isinstance(ts, float) else us_of(ts)} B " + ' '.join(parts)
                 + ' S ' + enc_store(self.store))
 
@@ -398,16 +416,29 @@ class Life:
         self.trace.append('ok')
         for spec in self.specs:
             exp = spec.get('exp')
+            link = spec.get('link')
+            lk = '-' if link is None else f"L{link['dest']}.{int(link['etrue'])}.{int(link['efalse'])}"
             self.lines.append(f"persist blk {hexs(key_of(spec))} {int(spec['p'])} {int(spec['s'])} "
-                              f"{'n' if exp is None else exp} {enc_kind(spec)}")
+                              f"{'n' if exp is None else exp} {lk} {enc_kind(spec)}")
             self.trace.append('ok')
         self.lines.append('persist store ' + enc_store(self.store))
         self.trace.append('ok ' + enc_store(self.store))
 
     def wrap(self, idx, blk):
         orig = blk.event
+        name = self.specs[idx]['name']
+        if hasattr(blk, '_restore_state'):
+            orig_restore = blk._restore_state
+
+            def restore(state, /):
+                orig_restore(state)
+                if blk.is_initialized():      # (an FSM ignores a state whose timer ran out without raising)
+                    self.restored_from[name] = copy.deepcopy(state)
+            blk._restore_state = restore
 
         def wrapper(etype, /, **data):
+            if not self.started_ok and 'source' in data:
+                self.init_events.append((name, str(etype), data.get('value')))
             if self.in_call:
                 return orig(etype, **data)
             # an event that does not come from the harness: a timer
@@ -793,6 +824,46 @@ def _gen_event(rng, spec, family, scn):
     return ['n.nonsense', None]
 
 
+def _gen_links(rng, scn):
+    """put on_output links into the block specs; returns the indices of the blocks involved"""
+    blocks = scn['blocks']
+    if not any(b['kind'] in ('input', 'counter') for b in blocks):
+        i = rng.randrange(len(blocks))
+        blocks[i] = {'kind': 'input', 'name': blocks[i]['name'], 'initdef': [0], 'p': True, 's': True, 'exp': None}
+    if not any(b['kind'] in ('input', 'inputexp') for b in blocks) or len(blocks) == 2:
+        j = rng.choice([j for j, b in enumerate(blocks)])
+        if sum(1 for b in blocks if b['kind'] in ('input', 'counter')) > 1 or blocks[j]['kind'] not in ('input', 'counter'):
+            blocks[j] = {'kind': 'input', 'name': blocks[j]['name'], 'initdef': [rng.choice(['dflt', 1])], 'p': True,
+                         's': True, 'exp': None}
+    srcs = [i for i, b in enumerate(blocks) if b['kind'] in ('input', 'counter')]
+    rng.shuffle(srcs)
+    used, dests = [], set()
+    for i in srcs[:rng.choice([1, 1, 2])]:
+        if i in dests:
+            continue
+        src = blocks[i]
+        cands = [j for j, b in enumerate(blocks) if j != i and b.get('link') is None and j not in used and
+                 (b['kind'] in ('input', 'inputexp') or (b['kind'] == 'counter' and src['kind'] == 'counter'))]
+        if not cands:
+            continue
+        j = rng.choice(cands)
+        r = rng.random()
+        et, ef = (True, True) if r < 0.25 else ((True, False) if r < 0.6 else ((False, True) if r < 0.9 else (False, False)))
+        src['link'] = {'dest': j, 'dest_name': blocks[j]['name'], 'etrue': et, 'efalse': ef}
+        if src['kind'] == 'input':
+            src['initdef'] = [rng.choice([0, 5, '', 'x', None])]
+        else:
+            src['initdef'] = rng.choice([0, 0, 3])
+        for b in (src, blocks[j]):
+            if rng.random() < 0.85:
+                b['p'] = True
+            if rng.random() < 0.8:
+                b['s'] = True
+        used.append(i)
+        dests.add(j)
+    return sorted(set(used) | dests) if used else []
+
+
 EXPV = ['none', 'none', 'zero', 'neg', 'short', 'equal', 'long', 'long']
 DOWNV = ['short', 'equal', 'long', 'longer', 'tick']
 
@@ -857,18 +928,39 @@ def _gen_scenario(rng, tier, family):
         else:
             spec = {'kind': 'counter', 'name': f'b{i}', 'mod': None, 'initdef': 0, 'p': True, 's': True, 'exp': None}
         scn['blocks'].append(spec)
+    # events between the blocks at start-up: on_output of an Input/Counter -> 'put' to another block, plain or
+    # through an EventCond with None on either side; the destination is created before or after the source
+    linked = _gen_links(rng, scn) if family == 'a' and scn['mode'] == 'ok' and nb >= 2 and rng.random() < 0.5 else []
     ops = []
     aborted = False
+    free = [i for i in range(nb) if scn['blocks'][i].get('link') is None]
     for tt in times:
         ops.append(['adv', tt])
         for _ in range(rng.choice([1, 1, 1, 2, 3])):
-            i = rng.randrange(nb)
+            i = rng.choice(free)        # (events that change the output of a link source are not modelled)
             name, arg = _gen_event(rng, scn['blocks'][i], family, scn)
             ops.append(['ev', i, name, arg])
     scn['ops'] = ops
+    if linked:
+        for r in scn['restarts']:
+            r['drop'] = []
     # initial storage: stale entries, unused keys, reserved keys, stamp
     store0 = []
-    if rng.random() < 0.6:
+    if linked and rng.random() < 0.8:
+        # valid entries of the linked blocks: the first start-up is a restart already
+        store0.append([STOPKEY, ['ts', t0 - 64 * TICK]])
+        for i in linked:
+            spec = scn['blocks'][i]
+            if rng.random() < 0.8:
+                k = spec['kind']
+                if k == 'input':
+                    e = ['val', rng.choice([0, 7, '', 'kept', None] if spec.get('link') else [11, 'kept', 0])]
+                elif k == 'counter':
+                    e = ['val', rng.choice([0, 0, 4])]
+                else:
+                    e = ['fsm', rng.choice(['valid', 'expired']), None, {'input': 3}]
+                store0.append([key_of(spec), e])
+    elif rng.random() < 0.6:
         if rng.random() < 0.7:
             store0.append([STOPKEY, ['ts', t0 - rng.choice([1, 64, 640, 6400]) * TICK]])
         elif rng.random() < 0.5:
@@ -936,8 +1028,25 @@ def _cancelled_shutdown_seed(first_run):
                           'sync': [True, False]}]}
 
 
+def _condnone_seed(src_first):
+    """`src` sends EventCond('put', None) to `dst` on output; both are persistent; first life: dst gets 'saved';
+    restart: src is restored to 0 (falsy -> "no event") before or after dst"""
+    t0 = WALL0
+    src = {'kind': 'input', 'name': 'b0' if src_first else 'b1', 'initdef': [0], 'p': True, 's': True, 'exp': None,
+           'link': {'dest': 1 if src_first else 0, 'dest_name': 'b1' if src_first else 'b0', 'etrue': True, 'efalse': False}}
+    dst = {'kind': 'input', 'name': 'b1' if src_first else 'b0', 'initdef': ['dflt'], 'p': True, 's': True, 'exp': None}
+    di = 1 if src_first else 0
+    return {'family': 'a', 'blocks': [src, dst] if src_first else [dst, src], 't0': t0, 'mode': 'ok', 'failer_first': False,
+            'ops': [['adv', t0 + SEC], ['ev', di, 'put', ['saved']]], 't_stop': t0 + 2 * SEC, 'store0': [],
+            'slow': None, 'stop': {'kind': 'full'},
+            'restarts': [{'snap': -1, 'down': 64 * TICK, 'exp': ['none', 'none'], 'drop': [], 'nopersist': [],
+                          'sync': [True, True]}]}
+
+
 def scenarios(rng, tier):
     yield _defect8_seed()
+    yield _condnone_seed(True)
+    yield _condnone_seed(False)
     yield _cancelled_shutdown_seed(True)
     yield _cancelled_shutdown_seed(False)
     n = 3000 if tier == 'quick' else 16000
@@ -949,8 +1058,15 @@ def shrink(scn):
     if len(scn['restarts']) > 1:
         for i in reversed(range(len(scn['restarts']))):
             yield {**scn, 'restarts': scn['restarts'][:i] + scn['restarts'][i + 1:]}
+    dests = {b['link']['dest'] for b in scn['blocks'] if b.get('link')}
+
+    def telling(sc):
+        return sum(1 for op in sc['ops'] if op[0] == 'ev' and op[1] in dests and op[2] == 'put'
+                   and op[3] is not None and op[3][0] not in ('REJ', 'BOOM'))
     for cand in shrink_ops(scn):
-        yield cand
+        # (one event that gives the destination of a link a state of its own stays: it makes the loss visible)
+        if telling(cand) >= min(1, telling(scn)):
+            yield cand
 
 
 # ----------------------------------------------------------------------------- run_impl
@@ -1051,7 +1167,7 @@ def _run_impl(scn, world):
         for i, spec in enumerate(scn['blocks']):
             if i in r['drop']:
                 continue
-            s2 = dict(spec)
+            s2 = copy.deepcopy(spec)
             s2['exp'] = exps[i]
             s2['s'] = r['sync'][i]
             if i in r['nopersist']:
@@ -1076,6 +1192,8 @@ def _run_impl(scn, world):
     tags = [f'family={family}', f'mode={scn["mode"]}', f'end={first.snaps[-1]["label"]}' if first.snaps else 'end=none',
             f'blocks={len(scn["blocks"])}', f'restarts={min(len(restarts), 8)}' + ('+' if len(restarts) > 8 else '')]
     tags += sorted({f'kind={b["kind"]}' for b in scn['blocks']})
+    if any(b.get('link') for b in scn['blocks']):
+        tags.append('links')
     tags.append('cleanup=' + ('none' if scn.get('slow') is None else scn.get('stop', {}).get('kind', 'full')))
     if first.snaps and first.snaps[-1]['label'] == 'stop' and not first.snaps[-1].get('complete', True):
         tags.append('stop-interrupted')
@@ -1264,6 +1382,14 @@ def oracle(scn, res):
             if not k.startswith('edzed-') and k not in keys2:
                 viol('unused_removed_reserved_kept', f'restart: entry {k!r} of a block that no longer exists/persists is kept')
         for j, spec2 in enumerate(rs['specs2']):
+            if spec2['p'] and o2s[j]['persistent']:
+                want = _expected_entry(spec2, o2s[j])
+                got = _entry_view(spec2, st2.get(key_of(spec2), KeyError))
+                if not _same(want, got):
+                    viol('storage_refines_state',
+                         f'after the start-up of the restarted circuit: {key_of(spec2)} holds {got!r}, block state {want!r}',
+                         at='restart-init')
+        for j, spec2 in enumerate(rs['specs2']):
             i = rs['idxmap'][j]
             o2 = o2s[j]
             key = keys[i]
@@ -1283,8 +1409,13 @@ def oracle(scn, res):
             timer = src.get('timer')
             ran_out = timer is not None and timer <= now2
             sig = {'kind': kind, 'snapshot': snap['label']}
+            got_event = bool(o2.get('init_events')) or bool(refs is not None and refs[j].get('init_events'))
             if is_expired or ran_out:
-                if refs is None:
+                if o2.get('restored'):
+                    viol('expired_state_discarded',
+                         f"restart from snapshot {sidx} ({snap['label']}) at {now2}: {key} was restored from "
+                         f"{o2.get('restored_from')!r} although expired={is_expired}, timer ran out={ran_out}", **sig)
+                if refs is None or got_event:
                     continue
                 rf = refs[j]
                 same = (rf['output'] == o2['output'] and rf.get('state') == o2.get('state')
@@ -1295,6 +1426,17 @@ def oracle(scn, res):
                          f"restart from snapshot {sidx} ({snap['label']}) at {now2}: {key} should be initialised normally "
                          f"(expired={is_expired}, timer ran out={ran_out}) but is {o2!r}, fresh block {rf!r}", **sig)
                 continue
+            # the entry is valid: the block must have been restored from it, whatever events the blocks sent each
+            # other during the start-up and in whatever order they were created
+            if not o2.get('restored') or not _same(_entry_view(spec2, o2.get('restored_from')), entry):
+                viol('startup_restores_every_valid_entry',
+                     f"restart from snapshot {sidx} ({snap['label']}, t={snap['t']}) after {rs['down']} us: the valid "
+                     f"entry {rs['store_in'][key]!r} of {key} was not restored (restored from: {o2.get('restored_from')!r}); "
+                     f"the block is {({k: v for k, v in o2.items() if k in ('output', 'state', 'inited')})!r}, events "
+                     f"received during the start-up: {o2.get('init_events')!r}", **sig)
+                continue
+            if got_event:
+                continue        # (restored, then changed by an event of another block: legitimate)
             if kind in ('timedate', 'timespan'):
                 good = o2.get('cfg') == src['cfg'] and o2['output'] == cal_verdict(kind, src['cfg'], now2)
             elif kind in ('input', 'counter'):
